@@ -16,7 +16,7 @@ EXPLANATION = (
     "is grammar safe at every operand role on every layout path; (R-SEMI) the semicolon requirement table; (R-TYPAREN) the Luau keep_parentheses(type, context) table keeps the parentheses the type grammar needs, each context mark sets the field of its name, and union / intersection / optional / variadic operands are formatted under their own mark on the single-line and the hanging path; (R-COND) "
     "condition parentheses are removed only from whole conditions. (R-ARMS) every arm that handles a feature-gated AST variant on the pinned tree (frozen table, 200+ arms; invisible to the default-feature suite and usually followed by a silent wildcard) is still present. (R-OPT(parens)) the call-sugar conversion drops parentheses only around exactly one argument of the right kind and builds the sugar node from that argument; (R-ELEMENT) a closure |&T| -> T that maps over child nodes builds each returned node from its own element, not from a captured parent / sibling; (R-REGEX) literals denote the same values: the escape / quote / number rewriting rules shared with C04. Not decided: token order inside every layout, "
     "anything depending on widths."
-    "Later rounds: (R-COMMENTLAYOUT) nine confirmed sites where a comment test must force the hanging / multi-line layout, so no code is swallowed by a line comment there. Rounds 20-21: (R-KEEP(e)); (R-TYPAREN tuple clause); who may call remove_condition_parentheses.")
+    "Later rounds: (R-COMMENTLAYOUT) nine confirmed sites where a comment test must force the hanging / multi-line layout, so no code is swallowed by a line comment there. Rounds 20-21: (R-KEEP(e)); (R-TYPAREN tuple clause); who may call remove_condition_parentheses. Round 23: (R-SEMI(last)) check_stmt_requires_semicolon and the block-formatter helpers it reaches never consult a non-last child (then-branch / condition of an if-expression, lhs of a binary operator, operand of a type assertion) when judging how the current statement ends.")
 ASSUMPTIONS = ["the grammar oracle and lexeme tables restate Lua 5.1-5.4/Luau facts",
                "full_moon's Display of a node prints its tokens in field order",
                "rustc MIR and Instance::try_resolve are trusted"]
@@ -25,5 +25,5 @@ ASSUMPTIONS = ["the grammar oracle and lexeme tables restate Lua 5.1-5.4/Luau fa
 def run(ctx):
     return [r_tree.rule_variant(ctx, "C02"), r_tree.rule_sym(ctx, "C02"),
             r_paren.rule_paren(ctx, "C02", parts=("table", "oracle", "context-lost")),
-            r_tree.rule_semi(ctx, "C02"), r_tree.rule_cond(ctx, "C02"), r_typaren.rule_typaren(ctx, "C02"), r_arms.rule_arms(ctx, "C02"),
+            r_tree.rule_semi(ctx, "C02"), r_tree.rule_semi_last(ctx, "C02"), r_tree.rule_cond(ctx, "C02"), r_typaren.rule_typaren(ctx, "C02"), r_arms.rule_arms(ctx, "C02"),
             r_regex.rule_regex(ctx, "C02"), r_opt.rule_call_parens(ctx, "C02"), r_tree.rule_element(ctx, "C02"), r_tree.rule_simple_block(ctx, "C02"), r_paren.rule_condition_parens(ctx, "C02"), r_tree.rule_positional(ctx, "C02"), r_layout.rule_comment_layout(ctx, "C02"), r_keep.rule_getter_setter_fields(ctx, "C02")]
